@@ -656,6 +656,32 @@ theorem sstepA_nil (op : SOp) (st : SSt) : sstepA [] op st = sstep op st := by
   | buffer d => rfl
   | flush => rfl
 
+theorem writeNsA_nil (maxsize : Nat) (p : Bytes) (st : SSt) : writeNsA [] maxsize p st = writeNs maxsize p st := rfl
+
+theorem writeNsA_conserves (offers : List Nat) (maxsize : Nat) (p : Bytes) (st : SSt) :
+    (writeNsA offers maxsize p st).2.wire ++ (writeNsA offers maxsize p st).2.getsendbuffer
+      = st.wire ++ st.getsendbuffer ++ (if p.length ≤ maxsize then encodeNs p else []) ∧
+    ((writeNsA offers maxsize p st).1 = .ok →
+      p.length ≤ maxsize ∧ (writeNsA offers maxsize p st).2.getsendbuffer = []) ∧
+    ((writeNsA offers maxsize p st).1 = .nsTooLong ↔ maxsize < p.length) := by
+  unfold writeNsA
+  split
+  · rename_i h
+    have : ¬ p.length ≤ maxsize := by omega
+    simp [this, h]
+  · rename_i h
+    have hle : p.length ≤ maxsize := by omega
+    obtain ⟨h1, _, h3, h4, _⟩ := sendA_ok offers (encodeNs p) st
+    cases hq : sendA offers (encodeNs p) st with
+    | mk r st' =>
+      rw [hq] at h1 h3 h4
+      cases r with
+      | timeout => simp only [hle, ↓reduceIte] at h1 ⊢; exact ⟨h1, by simp, by simp; omega⟩
+      | none => exact absurd rfl h3
+      | sent n =>
+        simp only [hle, ↓reduceIte] at h1 ⊢
+        exact ⟨h1, fun _ => ⟨trivial, (h4 n rfl).1⟩, by simp; omega⟩
+
 theorem dsopA_nil (o : SOp) (b : BSock) : dsopA [] o b = dsop o b := by
   simp only [dsopA, dsop, sstepA_nil]
 
